@@ -22,7 +22,25 @@ fn main() {
         Some("gen") if a.len() >= 6 => {
             let (suite, tier, seed, dir) = (a[2].as_str(), a[3].as_str(), a[4].parse::<u64>().unwrap(), a[5].as_str());
             let mut out = util::Out::new(dir, suite);
-            let mut emit = |line: String| { let o = cases::exec_case(&line); out.case(&line, o); };
+            // case kinds whose oracle is defined on EVERY input (exact decoders; the PES filter's predicates recompute what must
+            // happen from the packets themselves) get a sibling with relations induced between its bytes
+            let mut rrng = util::Rng::new(seed ^ 0x5e1a7e);
+            let mut emit = |line: String| {
+                let o = cases::exec_case(&line); out.case(&line, o);
+                let kind = line.split(' ').next().unwrap_or("");
+                let p = match kind { "P12" | "PKT" | "AF" | "PES" | "PPC" | "DSC" | "PAT" | "PMT" | "TSB" | "CRS" => 2, "PESF" | "CRC" => 4, _ => 0 };
+                if p > 0 && !line.contains('#') && rrng.chance(1, p) {
+                    let toks: Vec<&str> = line.split(' ').collect();
+                    let hexes: Vec<usize> = (1..toks.len()).filter(|&k| toks[k].starts_with('x') && toks[k].len() >= 5).collect();
+                    if !hexes.is_empty() {
+                        let k = *rrng.pick(&hexes);
+                        let mut b = util::unhex(toks[k]); util::relate(&mut b, &mut rrng);
+                        let mut t2: Vec<String> = toks.iter().map(|s| s.to_string()).collect(); t2[k] = util::hex(&b);
+                        let l2 = t2.join(" ");
+                        if l2 != line { let o2 = cases::exec_case(&l2); out.case(&l2, o2); }
+                    }
+                }
+            };
             match suite {
                 "C12" => suites::c12::gen(tier, seed, &mut emit),
                 "C15" => suites::c15::gen(tier, seed, &mut emit),
